@@ -141,4 +141,18 @@ theorem C05_frozen {α : Type} (calls : List (List (Ev α))) (h : Heap α) (hok 
     (execHistory h calls)[l]? = some c :=
   history_frame C05_gen_frozen_ok.1 calls h hok l c hc hm
 
+/-! ## text form -/
+
+/-- `format_float(x)` (as coded after the repair) of any value whose `x + 0.0` is finite has the shape
+`-?[0-9]+(\.[0-9]{1,6})?`, is never `-0`, and consists of sign, digits and point only (no exponent, no `inf`/`nan`). -/
+theorem C05_text_shape (x : Val) (hy : (add x zero).isFinite = true) :
+    shapeOK (formatFloat x) = true ∧ formatFloat x ≠ ['-', '0'] ∧ ∀ c ∈ formatFloat x, plainChar c = true :=
+  formatFloat_shape x hy
+
+/-- The code before the repair did return `-0` (for -1e-9, and for every negative double that rounds to zero at
+6 places). -/
+theorem C05_text_old_minus_zero :
+    formatFloatOld (decode 0xBE112E0BE826D695) = ['-', '0'] ∧ formatFloat (decode 0xBE112E0BE826D695) = ['0'] := by
+  decide +kernel
+
 end C05
